@@ -31,6 +31,7 @@ func c02(c *Ctx) {
 	sInstallDurable(c, "R6/S-DURABLE")
 	c10R2(c, "R6/C10.R2")
 	c02R7(c, "R7")
+	sState(c, "R8/S-STATE")
 }
 
 func c02R1(c *Ctx, rule string) {
